@@ -15,6 +15,7 @@ g++ -std=gnu++11 -I$wt/include demo.cpp -L$wt/_build -lezc3d -Wl,-rpath,$wt/_bui
 (cd $wt && ./demo_bin >/dev/null 2>&1); demo_with=$?
 git apply -R $out/patch.diff   # (git stash is shared between worktrees: never use it here)
 cmake --build _build >/dev/null 2>&1
+g++ -std=gnu++11 -I$wt/include demo.cpp -L$wt/_build -lezc3d -Wl,-rpath,$wt/_build -o demo_bin 2>/dev/null   # (headers may be part of the change)
 (cd $wt && ./demo_bin >/dev/null 2>&1); demo_without=$?
 tests_without=$(cd _build && ./runUnitTests 2>&1 | tail -1)
 git apply $out/patch.diff
